@@ -950,10 +950,13 @@ namespace
                 if (c[k] > 2)
                     simple = false;
             for (int jit = 0; jit < (th ? 4 : 3); ++jit)
-                for (int vo = 0; vo < 6; ++vo)
+                for (int vo = 0; vo < 18; ++vo)
                 {
-                    // quick: all vertex orders on the full/absent/split cells, two orders otherwise
-                    if (!th && !simple && vo != (code % 6) && vo != ((code + 3) % 6))
+                    // quick: all uniform vertex orders on the full/absent/split cells, two orders
+                    // otherwise; two of the twelve mixed-winding orders (all of them in thorough)
+                    if (!th && vo < 6 && !simple && vo != (code % 6) && vo != ((code + 3) % 6))
+                        continue;
+                    if (!th && vo >= 6 && vo != 6 + (code % 6) && vo != 12 + ((code + 3) % 6))
                         continue;
                     for (int sm : { 0 })
                     {
